@@ -818,6 +818,22 @@ func cmdCore(args []string) int {
 	corpus := fs.String("corpus", "", "comma separated corpus dirs")
 	search := fs.Bool("search", false, "failing-input search: monitors only, larger budget")
 	fs.Parse(args)
+	if *replay != "" && strings.HasSuffix(*replay, ".tcase") {
+		sd, d, err := core.LoadTracers(*replay)
+		if err != nil {
+			fmt.Println(err)
+			return 2
+		}
+		fs := core.TracerStress(sd, d, *out)
+		fmt.Println("tracer stress", core.TracerStats)
+		for _, f := range fs {
+			fmt.Printf("MONITOR %s: %s\n", f.Prop, f.Msg)
+		}
+		if len(fs) > 0 {
+			return 1
+		}
+		return 0
+	}
 	if *replay != "" && strings.HasSuffix(*replay, ".rcase") {
 		sd, d, err := core.LoadReaders(*replay)
 		if err != nil {
@@ -900,6 +916,21 @@ func cmdCore(args []string) int {
 			res.Extra = map[string]any{}
 		}
 		res.Extra["reader_stress"] = core.ReaderStats
+	}
+	if *prop == "C14" {
+		// many goroutines, two tracers
+		d := 300 * time.Millisecond
+		if *tier == "thorough" {
+			d = 5 * time.Second
+		}
+		if *search {
+			d *= 4
+		}
+		res.Failures = append(res.Failures, core.TracerStress(*seed, d, *out)...)
+		if res.Extra == nil {
+			res.Extra = map[string]any{}
+		}
+		res.Extra["tracer_stress"] = core.TracerStats
 	}
 	b, _ := json.MarshalIndent(res, "", " ")
 	if *result != "" {
